@@ -117,6 +117,9 @@ func genLabels(rt *rapid.T) labelsCase {
 	if some("multi") { // a series alive before, inside and after
 		mkStream("multi", sig, w.From-r64(rt, 1, 3*nsDay, "mb"), at(r64(rt, insideLo, insideHi, "mi")), w.To+r64(rt, 0, 3*nsDay, "ma"))
 	}
+	if m, ok := w.middleDay(); ok {
+		mkStream("mid", sig, m+r64(rt, 0, 3600, "midOff")*nsSec)
+	}
 	if some("pfb") {
 		mkStream("pfb", sig, int64(dayOf(w.From)-1)*nsDay-1-r64(rt, 0, 2*nsDay, "pfb"))
 	}
@@ -268,6 +271,9 @@ func predLabels(c labelsCase, o *evid.Obs) error {
 				return fmt.Errorf("%s misses %s: it has a sample inside the window, so the index date range does not cover the window\n%s", ctx, what, sqlDump(stmts))
 			}
 			o.Tag("found-inside")
+			if bs.spec.Tag == "mid" {
+				o.Tag("middle-day-only:found")
+			}
 		case far:
 			if shown[bs.spec.Tag] {
 				return fmt.Errorf("%s returns %s: all its index rows are two or more days away from the window's days [%s, %s]\n%s", ctx, what, dateStr(loDay), dateStr(hiDay), sqlDump(stmts))
